@@ -130,7 +130,7 @@ func c14Parser(c *C14Case) parsley.Parser {
 	case "lits":
 		lit := combinator.Choice(terminal.Float("f"), terminal.Integer("i"), terminal.String("s", true), terminal.Char("c"),
 			terminal.TimeDuration("d"), terminal.Bool("b", "true", "false"), terminal.Nil("n", "nil"), terminal.Word("w", "foo", 1), terminal.Op("=="),
-			terminal.Regexp("r", "ID", "id", freshPattern(c.Pattern), 0)).Name("literal")
+			terminal.Regexp("r", "ID", "id", freshPattern(c.Pattern), 1)).Name("literal")
 		return combinator.Sentence(combinator.Many(text.Trim(lit)).Bind(concatInterpAny()))
 	}
 	return combinator.Sentence(Build(c.G, BuildOpts{Interp: concatInterp(true)}).NT[0])
@@ -161,7 +161,7 @@ var identPool = []string{"if", "for", "else", "foo", "bar", "x", "while", "let"}
 
 // identParser is a keyword-aware identifier: a lower-case word that the context has not reserved.
 func identParser() parsley.Parser {
-	word := terminal.Regexp("id", "ID", "identifier", "[a-z]+", 0)
+	word := terminal.Regexp("id", "ID", "identifier", "([a-z]+)", 1) // the value is the first group
 	return parser.Func(func(ctx *parsley.Context, l data.IntMap, pos parsley.Pos) (parsley.Node, data.IntSet, parsley.Error) {
 		n, cp, err := word.Parse(ctx, l, pos)
 		if n != nil {
@@ -210,10 +210,28 @@ func runOneTree(p parsley.Parser, name, in string, keywords ...string) (string, 
 	ctx := parsley.NewContext(parsley.NewFileSet(f), text.NewReader(f))
 	ctx.RegisterKeywords(keywords...)
 	v, err := parsley.Evaluate(ctx, p)
+	res := fmt.Sprintf("%v / %v / calls=%d", v, err, ctx.CallCount())
+	// the value belongs to this run: what its owner does with it afterwards is nobody else's business
+	scribbleValue(v)
 	ctx2 := parsley.NewContext(parsley.NewFileSet(f), text.NewReader(f))
 	ctx2.RegisterKeywords(keywords...)
 	tree, _ := parsley.Parse(ctx2, p)
-	return fmt.Sprintf("%v / %v / calls=%d", v, err, ctx.CallCount()), tree
+	return res, tree
+}
+
+// scribbleValue writes into every map of an evaluated value (a caller adding a default key).
+func scribbleValue(v interface{}) {
+	switch x := v.(type) {
+	case map[string]interface{}:
+		for _, e := range x {
+			scribbleValue(e)
+		}
+		x["\x00owner"] = "touched"
+	case []interface{}:
+		for _, e := range x {
+			scribbleValue(e)
+		}
+	}
 }
 
 func checkC14(ci interface{}, st *Stats) error {
@@ -290,7 +308,7 @@ func checkC14(ci interface{}, st *Stats) error {
 							_ = json.NewParser()
 						case 2:
 							// a terminal with a regular expression nobody used before in this process
-							re := terminal.Regexp("r", "ID", "id", freshPattern(c.Pattern+1+g*131+round*17+ji), 0)
+							re := terminal.Regexp("r", "ID", "id", freshPattern(c.Pattern+1+g*131+round*17+ji), (g+ji)%2)
 							runOne(combinator.Sentence(combinator.Many(text.Trim(re)).Bind(concatInterpAny())), "ab cd")
 						default:
 							q := c14Parser(c)
@@ -357,7 +375,7 @@ func checkC14(ci interface{}, st *Stats) error {
 // freshPattern gives a regular expression (matching lower-case words) whose text is very
 // likely new to the process.
 func freshPattern(n int) string {
-	return fmt.Sprintf("[a-z]+(?:#x{%d}y{%d})?", n%1000+1, (n/1000)%1000+1)
+	return fmt.Sprintf("([a-z]+)(?:#x{%d}y{%d})?", n%1000+1, (n/1000)%1000+1)
 }
 
 // parallelBuild constructs the parts of ONE grammar in several goroutines at the same time
